@@ -70,6 +70,15 @@ CHECKS = {
             'plaintext, 60+ other sequence numbers, other keys must fail; after real handshakes duplicated, swapped and '
             'dropped application-data records must surface no byte at or after the fault.',
             '4/C11', TRUSTED),
+    'C19': ('exploration',
+            'file-descriptor level capture of stdout/stderr around each operation in the sanitized process, scanned for '
+            'every secret the harness knows (raw and hex layouts); scanner self-tested on an explicit key print',
+            'Handshakes of all three protocols (both auth modes, plus application data, plus tampered-flight failure paths), '
+            'SM2 key generation/import/sign/decrypt/ECDH, PKCS#8 encrypt/open (right, wrong password, truncated), SM9 '
+            'keygen/extract/sign/encrypt/decrypt, record unprotection (good and bad records); secrets searched: private '
+            'scalars (both byte orders), nonces, master secret, key block and slices, TLS 1.3 traffic keys recovered by '
+            'inverting the SM4 key schedule of the connection object, IVs, passwords, plaintexts.',
+            '4/C19', TRUSTED),
 }
 
 NOT_YET = {}
